@@ -60,7 +60,7 @@ fn open_str(v: &Value) -> String {
     v.as_str().unwrap_or("").to_string()
 }
 
-fn replay_one(beh: &Value, ra: bool, tag: &str) -> Result<ReplayOutcome, String> {
+fn replay_one(beh: &Value, ra: bool, tag: &str, stop_on: &[String]) -> Result<ReplayOutcome, String> {
     let steps = beh["steps"].as_array().ok_or("no steps")?;
     let init = &steps[0]["exp"];
     let w = init["w"].as_array().unwrap().len();
@@ -70,6 +70,7 @@ fn replay_one(beh: &Value, ra: bool, tag: &str) -> Result<ReplayOutcome, String>
     make_start_file(&path, init, &bounds);
     let mut ctl = Ctl::new(&path, w, &readers, init["wk"].as_u64().unwrap(), init["done"].as_u64().unwrap());
     ctl.oracle.sc = !ra;
+    ctl.oracle.stop_on = stop_on.to_vec();
     let mut out = ReplayOutcome { steps: 0, comparisons: 0, drift: None, violations: vec![], transcript: vec![] };
     let mut free = false;
     for (i, st) in steps.iter().enumerate().skip(1) {
@@ -80,6 +81,10 @@ fn replay_one(beh: &Value, ra: bool, tag: &str) -> Result<ReplayOutcome, String>
         let r = step(&mut ctl, a, p, v, exp, ra, free, &bounds);
         out.steps += 1;
         match r {
+            Err(e) if ctl.poisoned => {
+                let _ = e;
+                break;
+            }
             Err(e) => {
                 // tool-level failure (real hang, dead actor)
                 ctl.shutdown();
@@ -99,7 +104,7 @@ fn replay_one(beh: &Value, ra: bool, tag: &str) -> Result<ReplayOutcome, String>
                 free = true;
             }
         }
-        if !ctl.oracle.violations.is_empty() {
+        if ctl.oracle.should_stop() {
             break;
         }
     }
@@ -112,6 +117,16 @@ fn replay_one(beh: &Value, ra: bool, tag: &str) -> Result<ReplayOutcome, String>
 }
 
 fn drain(ctl: &mut Ctl, full: bool) {
+    if ctl.poisoned {
+        // abandon every call without touching the mapping
+        let names: Vec<String> = ctl.procs.keys().cloned().collect();
+        for n in names {
+            if ctl.pending_of(&n).is_some() {
+                let _ = ctl.release(&n, Directive::Crash);
+            }
+        }
+        return;
+    }
     let names: Vec<String> = ctl.procs.keys().cloned().collect();
     // writer first (bounded number of steps, one at a time so that the oracle sees each)
     let writers: Vec<String> = names.iter().filter(|n| ctl.procs[*n].is_writer).cloned().collect();
@@ -133,6 +148,10 @@ fn drain(ctl: &mut Ctl, full: bool) {
             guard += 1;
             if !full && guard > 60 {
                 // replay: the spin against a dead writer is exercised by `stall` and `explore`; abandon the call
+                let _ = ctl.release(n, Directive::Crash);
+                break;
+            }
+            if ctl.oracle.should_stop() {
                 let _ = ctl.release(n, Directive::Crash);
                 break;
             }
@@ -377,6 +396,7 @@ fn step(ctl: &mut Ctl, a: &str, p: &str, v: u64, exp: &Value, ra: bool, free: bo
 fn replay_cmd(args: &[String]) -> Value {
     let file = args.get(2).expect("behaviours file");
     let ra = flag(args, "--ra");
+    let stop_on: Vec<String> = arg(args, "--stop-on").map(|s| s.split(',').map(|x| x.to_string()).collect()).unwrap_or_default();
     let f = std::io::BufReader::new(std::fs::File::open(file).expect("open behaviours"));
     let (mut nb, mut steps, mut comps) = (0usize, 0usize, 0usize);
     let mut violations = vec![];
@@ -390,7 +410,7 @@ fn replay_cmd(args: &[String]) -> Value {
         }
         let beh: Value = serde_json::from_str(&line).expect("behaviour json");
         let n = beh["n"].as_u64().unwrap_or(nb as u64);
-        match replay_one(&beh, ra, &format!("rp{n}")) {
+        match replay_one(&beh, ra, &format!("rp{n}"), &stop_on) {
             Ok(o) => {
                 steps += o.steps;
                 comps += o.comparisons;
@@ -421,6 +441,7 @@ fn explore_cmd(args: &[String]) -> Value {
     let nreaders: usize = arg(args, "--readers").map(|s| s.parse().unwrap()).unwrap_or(3);
     let trace_out = arg(args, "--trace");
     let crash_pct: u32 = arg(args, "--crash-pct").map(|s| s.parse().unwrap()).unwrap_or(3);
+    let stop_on: Vec<String> = arg(args, "--stop-on").map(|s| s.split(',').map(|x| x.to_string()).collect()).unwrap_or_default();
     let mut rng = StdRng::seed_from_u64(seed);
     let mut all_events: Vec<Value> = vec![];
     let mut violations = vec![];
@@ -440,6 +461,7 @@ fn explore_cmd(args: &[String]) -> Value {
         let bounds = chunk_bounds(w);
         make_start_file(&path, &init, &bounds);
         let mut ctl = Ctl::new(&path, w, &readers, wk, done);
+        ctl.oracle.stop_on = stop_on.clone();
         ctl.log_events = trace_out.is_some();
         ctl.events.push(json!({"n": 0, "p": "-", "a": "Reset", "v": 0, "init": init, "w": w, "readers": readers}));
         let mut k = wk;
@@ -497,10 +519,12 @@ fn explore_cmd(args: &[String]) -> Value {
             };
             total_steps += 1;
             if let Err(e) = r {
-                err = Some(e);
+                if !ctl.poisoned {
+                    err = Some(e);
+                }
                 break;
             }
-            if !ctl.oracle.violations.is_empty() {
+            if ctl.oracle.should_stop() {
                 break;
             }
         }
@@ -508,7 +532,7 @@ fn explore_cmd(args: &[String]) -> Value {
         if let Some(e) = err {
             errors.push(json!({"run": run, "error": e}));
         }
-        if !ctl.oracle.violations.is_empty() && violations.len() < 10 {
+        if ctl.oracle.should_stop() && violations.len() < 10 {
             violations.push(json!({"run": run, "seed": seed, "class": class, "violations": viol_json(&ctl.oracle.violations),
                 "events": ctl.events.iter().rev().take(60).rev().cloned().collect::<Vec<_>>()}));
         }
@@ -782,7 +806,7 @@ fn stall_cmd(_args: &[String]) -> Value {
                 if let Err(e) = r {
                     errors.push(json!({"case": [writer_stop, reader_lead, cached], "error": e}));
                 }
-                if !ctl.oracle.violations.is_empty() && violations.len() < 10 {
+                if ctl.oracle.should_stop() && violations.len() < 10 {
                     violations.push(json!({"case": {"writer_stalled_after": writer_stop, "reader_lead": reader_lead, "cached": cached}, "violations": viol_json(&ctl.oracle.violations)}));
                 }
                 ctl.shutdown();
